@@ -341,6 +341,13 @@ class C06(Plugin):
                     args = [rng.choice([None, None, None, None] + LABELS_OK[:8]) for _ in range(5)]
                     if rng.random() < 0.7:
                         args[0] = args[1] = None
+                    if rng.random() < 0.3:
+                        # the declaration directly in table / table body / row context, after rows opened earlier: the
+                        # restart happens in the middle of a foster-parenting insertion
+                        pre = rng.choice([b"<table><tr>", b"<table><tbody>", b"<table><tr><td>a</td></tr><tr>", b"<table>",
+                                          b"<table><tr><td>1</td></tr></table><table><tbody>"])
+                        yield {"k": 4, "b": list(pad + pre + metas + b"<td>\xc1\xc2\xd7</td></tr></table>" + body), "args": args}
+                        continue
                     yield {"k": 4, "b": list(pad + metas + body + rng.choice([b"", metas])), "args": args}
                 elif q < 0.6:
                     yield {"k": 0, "b": list(b)}
